@@ -55,6 +55,8 @@ struct G {
     export: bool,
     bases: Vec<String>,
     m: Vec<GM>,
+    /// the glyph's own source at the font's intermediate ("brace" / sparse) location, if it has one
+    sp: Option<GM>,
 }
 #[derive(Clone, Debug)]
 struct Src {
@@ -63,12 +65,51 @@ struct Src {
     /// user-space axis positions of the masters (axis 0..1000); master 0 is the default
     pos: Vec<f64>,
     axis_default: f64,
+    /// user-space position of an intermediate location at which only some glyphs have a source
+    sparse: Option<f64>,
     glyphs: Vec<G>,
     /// public.glyphOrder
     order: Vec<String>,
 }
 
+fn lerp(a: f64, b: f64, t: f64) -> f64 {
+    a + (b - a) * t
+}
+fn lerp_gm(a: &GM, b: &GM, t: f64) -> GM {
+    GM {
+        adv: lerp(a.adv, b.adv, t),
+        contours: a.contours.iter().zip(b.contours.iter()).map(|(c, d)| c.iter().zip(d.iter()).map(|(p, q)| P { x: lerp(p.x, q.x, t), y: lerp(p.y, q.y, t), on: p.on }).collect()).collect(),
+        xf: a.xf.iter().zip(b.xf.iter()).map(|(x, y)| { let mut o = [0.0; 6]; for i in 0..6 { o[i] = lerp(x[i], y[i], t); } o }).collect(),
+    }
+}
+
 impl Src {
+    /// every location at which some glyph has a source: the full masters, then the intermediate one
+    fn locs(&self) -> Vec<f64> {
+        let mut v = self.pos.clone();
+        if let Some(p) = self.sparse {
+            if self.glyphs.iter().any(|g| g.sp.is_some()) {
+                v.push(p);
+            }
+        }
+        v
+    }
+    /// The glyph at location index `li` of `locs()`: its own source there, else what a one-axis variation
+    /// model gives from the glyph's own sources: linear interpolation between the neighbouring ones.
+    fn inst(&self, g: &G, li: usize) -> GM {
+        if li < self.pos.len() {
+            return g.m[li].clone();
+        }
+        if let Some(m) = &g.sp {
+            return m.clone();
+        }
+        let p = self.sparse.unwrap();
+        let mut own: Vec<(f64, &GM)> = self.pos.iter().cloned().zip(g.m.iter()).collect();
+        own.sort_by(|a, b| a.0.partial_cmp(&b.0).unwrap());
+        let hi = own.iter().position(|x| x.0 > p).unwrap();
+        let (a, b) = (&own[hi - 1], &own[hi]);
+        lerp_gm(a.1, b.1, (p - a.0) / (b.0 - a.0))
+    }
     fn g(&self, n: &str) -> Option<&G> {
         self.glyphs.iter().find(|g| g.name == n)
     }
@@ -93,6 +134,19 @@ impl Src {
                 ..Default::default()
             })
             .collect();
+        let mut masters = masters;
+        if let Some(p) = self.sparse {
+            let gl: Vec<GlyphSrc> = self
+                .glyphs
+                .iter()
+                .filter(|g| g.sp.is_some())
+                .map(|g| { let mut h = g.clone(); h.m[0] = g.sp.clone().unwrap(); glyph_src(&h, 0) })
+                .collect();
+            if !gl.is_empty() {
+                // a layer of the default master's UFO, holding only the glyphs that have this intermediate source
+                masters.push(Master { name: "Brace".into(), style: "Brace".into(), location: vec![("Weight".into(), p)], glyphs: gl, layer_of: Some("M0".into()), ..Default::default() });
+            }
+        }
         Design {
             family: "CTwelve".into(),
             upem: 1000,
@@ -116,9 +170,10 @@ impl Src {
     }
     fn to_json(&self) -> Value {
         json!({
-            "kind": self.kind, "masters": self.pos, "axis_default": self.axis_default, "glyph_order": self.order,
+            "kind": self.kind, "masters": self.pos, "axis_default": self.axis_default, "intermediate_location": self.sparse, "glyph_order": self.order,
             "glyphs": self.glyphs.iter().map(|g| json!({
                 "name": g.name, "export": g.export, "bases": g.bases,
+                "intermediate_source": g.sp.as_ref().map(|m| json!({"advance": m.adv, "contours": m.contours.iter().map(|c| c.iter().map(|p| json!([p.x, p.y, p.on])).collect::<Vec<_>>()).collect::<Vec<_>>()})),
                 "masters": g.m.iter().map(|m| json!({
                     "advance": m.adv,
                     "contours": m.contours.iter().map(|c| c.iter().map(|p| json!([p.x, p.y, p.on])).collect::<Vec<_>>()).collect::<Vec<_>>(),
@@ -184,7 +239,7 @@ fn resolve_ref(src: &Src, name: &str, k: usize, t: &[f64; 6], flipped: bool, out
         return;
     }
     let Some(g) = src.g(name) else { return };
-    let m = &g.m[k];
+    let m = &src.inst(g, k);
     for c in &m.contours {
         out.push(RC {
             pts: c.iter().map(|p| { let (x, y) = apply(t, p.x, p.y); P { x, y, on: p.on } }).collect(),
@@ -205,7 +260,7 @@ fn format_bound(src: &Src, name: &str, k: usize, fuel: usize) -> (f64, f64) {
         return (0.0, 0.0);
     }
     let Some(g) = src.g(name) else { return (0.0, 0.0) };
-    let m = &g.m[k];
+    let m = &src.inst(g, k);
     // a stored point is the rounded master point; away from the default master gvar's IUP optimisation
     // (tolerance 0.5) may move it by another half unit
     let mut err: f64 = if k == 0 { 0.5 } else { 1.0 };
@@ -340,12 +395,12 @@ fn gen_src(rng: &mut Rng, id: usize) -> Src {
                 xf: vec![],
             })
             .collect();
-        glyphs.push(G { name: names[i].into(), export: !rng.chance(1, 8), bases: vec![], m });
+        glyphs.push(G { name: names[i].into(), export: !rng.chance(1, 8), bases: vec![], m, sp: None });
     }
     if rng.chance(1, 5) {
         // an empty glyph that can be used as a component
         let adv0 = rng.range(100, 400) as f64;
-        glyphs.push(G { name: "space".into(), export: true, bases: vec![], m: (0..nm).map(|_| GM { adv: adv0, contours: vec![], xf: vec![] }).collect() });
+        glyphs.push(G { name: "space".into(), export: true, bases: vec![], m: (0..nm).map(|_| GM { adv: adv0, contours: vec![], xf: vec![] }).collect(), sp: None });
     }
     let ncomp = rng.range(1, 6) as usize;
     let chainy = rng.chance(1, 2);
@@ -393,7 +448,7 @@ fn gen_src(rng: &mut Rng, id: usize) -> Src {
                 xf: xfs[k].clone(),
             })
             .collect();
-        glyphs.push(G { name: name.into(), export: !rng.chance(1, 4), bases, m });
+        glyphs.push(G { name: name.into(), export: !rng.chance(1, 4), bases, m, sp: None });
     }
     if !glyphs.iter().any(|g| g.export && !g.bases.is_empty()) {
         let k = glyphs.len() - 1;
@@ -405,22 +460,44 @@ fn gen_src(rng: &mut Rng, id: usize) -> Src {
     }
     kinds.sort();
     kinds.dedup();
-    Src { id, kind: format!("random:{}m", nm), pos, axis_default, glyphs, order }
+    // An intermediate ("brace") source on one or two contour glyphs only: every composite that reaches them
+    // has sources at the full masters alone, so the location is known only deep in the component graph.
+    let mut sparse = None;
+    if nm > 1 && rng.chance(1, 2) {
+        let p = if nm == 2 { *rng.pick(&[250.0, 500.0, 750.0]) } else { *rng.pick(&[250.0, 750.0]) };
+        let leaves: Vec<usize> = (0..glyphs.len()).filter(|i| glyphs[*i].bases.is_empty() && !glyphs[*i].m[0].contours.is_empty()).collect();
+        if !leaves.is_empty() {
+            sparse = Some(p);
+            let n_sp = if leaves.len() > 1 && rng.chance(1, 3) { 2 } else { 1 };
+            let mut pick = leaves.clone();
+            rng.shuffle(&mut pick);
+            let probe = Src { id, kind: String::new(), pos: pos.clone(), axis_default, sparse, glyphs: glyphs.clone(), order: vec![] };
+            for i in pick.into_iter().take(n_sp) {
+                // well away from the straight line between the neighbouring masters
+                let mid = probe.inst(&glyphs[i], nm);
+                let contours = mid.contours.iter().map(|c| vary_contour(rng, c, 120).iter().map(|q| P { x: q.x.round(), y: q.y.round(), on: q.on }).collect()).collect();
+                glyphs[i].sp = Some(GM { adv: (mid.adv + rng.range(-60, 60) as f64).round(), contours, xf: vec![] });
+            }
+        }
+    }
+    Src { id, kind: format!("random:{}m{}", nm, if sparse.is_some() { "+brace" } else { "" }), pos, axis_default, sparse, glyphs, order }
 }
 
 fn rect(x0: f64, y0: f64, x1: f64, y1: f64) -> Contour {
     vec![P { x: x0, y: y0, on: true }, P { x: x1, y: y0, on: true }, P { x: x1, y: y1, on: true }, P { x: x0, y: y1, on: true }]
 }
 fn simple(name: &str, c: Vec<Contour>) -> G {
-    G { name: name.into(), export: true, bases: vec![], m: vec![GM { adv: 500.0, contours: c, xf: vec![] }] }
+    G { name: name.into(), export: true, bases: vec![], m: vec![GM { adv: 500.0, contours: c, xf: vec![] }], sp: None }
 }
 fn comp(name: &str, own: Vec<Contour>, parts: &[(&str, [f64; 6])]) -> G {
-    G { name: name.into(), export: true, bases: parts.iter().map(|p| p.0.to_string()).collect(), m: vec![GM { adv: 600.0, contours: own, xf: parts.iter().map(|p| p.1).collect() }] }
+    G { name: name.into(), export: true, bases: parts.iter().map(|p| p.0.to_string()).collect(), m: vec![GM { adv: 600.0, contours: own, xf: parts.iter().map(|p| p.1).collect() }], sp: None }
 }
 fn fixed(id: usize, kind: &str, glyphs: Vec<G>) -> Src {
     let order = glyphs.iter().map(|g| g.name.clone()).collect();
-    Src { id, kind: kind.into(), pos: vec![0.0], axis_default: 0.0, glyphs, order }
+    Src { id, kind: kind.into(), pos: vec![0.0], axis_default: 0.0, sparse: None, glyphs, order }
 }
+
+const COMPOSITE_BRACE: &str = "fixed:composite-brace";
 
 fn fixed_sources() -> Vec<Src> {
     let sc = |s: f64| [s, 0.0, 0.0, s, 0.0, 0.0];
@@ -463,6 +540,56 @@ fn fixed_sources() -> Vec<Src> {
     v.push(fixed(6, "fixed:deep-mixed", gs));
     // component whose own transform is outside [-2,2]
     v.push(fixed(7, "fixed:direct-overflow", vec![simple("a", vec![rect(0.0, 0.0, 100.0, 100.0)]), comp("b", vec![], &[("a", sc(3.0)), ("a", [1.0, 0.0, 0.0, 1.0, 400.0, 0.0])]), comp("c", vec![], &[("b", IDENT)])]));
+    // outer -> mid -> leaf where only the leaf has an intermediate master, far from the straight line: every
+    // way of decomposing an outer glyph while mid is still a composite (mixed + prefer-simple, 2x2 on the outer
+    // reference + decompose-transformed, listed before mid + decompose-all, non-export in between)
+    {
+        let two = |mut g: G, dx: f64| {
+            let mut m1 = g.m[0].clone();
+            for c in m1.contours.iter_mut() {
+                for q in c.iter_mut() {
+                    if q.x > 0.0 {
+                        q.x += dx;
+                    }
+                }
+            }
+            g.m.push(m1);
+            g
+        };
+        let mut a = two(simple("a", vec![rect(0.0, 0.0, 100.0, 150.0)]), 50.0);
+        a.sp = Some(GM { adv: 500.0, contours: vec![rect(0.0, 0.0, 120.0, 400.0)], xf: vec![] });
+        let mut part = two(comp("_part", vec![], &[("mid", IDENT)]), 0.0);
+        part.export = false;
+        let glyphs = vec![
+            two(comp("early", vec![], &[("mid", [1.0, 0.0, 0.0, 1.0, 0.0, 20.0])]), 0.0),
+            a,
+            two(comp("mid", vec![], &[("a", [1.0, 0.0, 0.0, 1.0, 65.0, 225.0])]), 0.0),
+            two(comp("top", vec![], &[("mid", [1.0, 0.0, 0.0, 1.0, 10.0, 0.0])]), 0.0),
+            two(comp("topflip", vec![], &[("mid", [-1.0, 0.0, 0.0, 1.0, 300.0, 0.0])]), 0.0),
+            two(comp("topscale", vec![], &[("mid", [0.5, 0.0, 0.0, 0.5, 0.0, 0.0])]), 0.0),
+            two(comp("mixed", vec![rect(300.0, 0.0, 350.0, 50.0)], &[("mid", IDENT)]), 10.0),
+            part,
+            two(comp("usepart", vec![], &[("_part", [1.0, 0.0, 0.0, 1.0, 5.0, 0.0])]), 0.0),
+            two(comp("deep", vec![], &[("top", [1.0, 0.0, 0.0, 1.0, 0.0, -30.0])]), 0.0),
+        ];
+        let order = glyphs.iter().map(|g| g.name.clone()).collect();
+        v.push(Src { id: 8, kind: "fixed:deep-intermediate-master".into(), pos: vec![0.0, 1000.0], axis_default: 0.0, sparse: Some(500.0), glyphs, order });
+    }
+    // An intermediate master on a COMPOSITE in the middle of a chain: mid = [a] has a brace layer at wght=500 whose
+    // offset (y=600) is off the line between the masters (y=225); top = [mid].  flatten_glyph walks top's own
+    // locations only, so the flattened top interpolates straight through wght=500 (known finding, own key).
+    {
+        let two = |mut g: G| {
+            let m1 = g.m[0].clone();
+            g.m.push(m1);
+            g
+        };
+        let mut mid = two(comp("mid", vec![], &[("a", [1.0, 0.0, 0.0, 1.0, 65.0, 225.0])]));
+        mid.sp = Some(GM { adv: 600.0, contours: vec![], xf: vec![[1.0, 0.0, 0.0, 1.0, 65.0, 600.0]] });
+        let glyphs = vec![two(simple("a", vec![rect(0.0, 0.0, 100.0, 150.0)])), mid, two(comp("top", vec![], &[("mid", [1.0, 0.0, 0.0, 1.0, 10.0, 0.0])]))];
+        let order = glyphs.iter().map(|g| g.name.clone()).collect();
+        v.push(Src { id: 9, kind: COMPOSITE_BRACE.into(), pos: vec![0.0, 1000.0], axis_default: 0.0, sparse: Some(500.0), glyphs, order });
+    }
     v
 }
 
@@ -651,7 +778,7 @@ fn observe(bytes: &[u8], src: &Src) -> Result<FontObs, String> {
         let name = names.get(gid).map(|n| n.to_string()).unwrap_or_default();
         obs.names.push(name.clone());
         let mut per = Vec::new();
-        for p in &src.pos {
+        for p in &src.locs() {
             let loc = if src.pos.len() > 1 { font.axes().location([("wght", *p as f32)]) } else { Default::default() };
             let mut pen = Pen::default();
             if let Some(g) = outlines.get(gid) {
@@ -722,6 +849,50 @@ struct IrGlyph {
     contours: Vec<Vec<(f64, f64)>>,
     comps: Vec<(String, [f64; 6])>,
     adv: f64,
+}
+
+/// for every glyph of the final glyph order that has no components: the locations (normalised, in quarters)
+/// at which the IR glyph has a source
+fn read_ir_locs(ir_dir: &std::path::Path) -> Result<Vec<(String, Vec<i64>)>, String> {
+    let f = FePaths::target_file(ir_dir, &FeWorkId::GlyphOrder);
+    let order: fontir::ir::GlyphOrder = serde_yaml::from_reader(std::fs::File::open(&f).map_err(|e| format!("{f:?}: {e}"))?).map_err(|e| format!("{f:?}: {e}"))?;
+    let mut out = Vec::new();
+    for name in order.names() {
+        if name.as_str() == ".notdef" {
+            continue;
+        }
+        let f = FePaths::target_file(ir_dir, &FeWorkId::Glyph(name.clone()));
+        let g: fontir::ir::Glyph = serde_yaml::from_reader(std::fs::File::open(&f).map_err(|e| format!("{f:?}: {e}"))?).map_err(|e| format!("{f:?}: {e}"))?;
+        if g.sources().values().any(|i| !i.components.is_empty()) {
+            continue;
+        }
+        let mut locs: Vec<i64> = g.sources().keys().map(|l| l.iter().next().map(|(_, c)| (c.to_f64() * 4.0).round() as i64).unwrap_or(0)).collect();
+        locs.sort();
+        out.push((name.to_string(), locs));
+    }
+    Ok(out)
+}
+/// normalised position (in quarters) of location index li
+fn quarter(src: &Src, li: usize) -> i64 {
+    if src.pos.len() == 1 {
+        return 0;
+    }
+    let (p, d) = (src.locs()[li], src.axis_default);
+    let v = if p == d { 0.0 } else if p > d { (p - d) / (1000.0 - d) } else { -(d - p) / d };
+    (v * 4.0).round() as i64
+}
+fn coq_lfont(src: &Src) -> String {
+    let nl = src.locs().len();
+    let gl: Vec<String> = src
+        .glyphs
+        .iter()
+        .enumerate()
+        .map(|(i, g)| {
+            let locs: Vec<String> = (0..nl).filter(|li| *li < src.pos.len() || g.sp.is_some()).map(|li| coq_z(quarter(src, li))).collect();
+            format!("((Src {}), mkL [{}] {})", i, locs.join("; "), coq_list(&g.bases, |b| coq_name(src, b)))
+        })
+        .collect();
+    format!("(lfont_of [{}])", gl.join("; "))
 }
 
 fn read_ir(ir_dir: &std::path::Path, src: &Src, k: usize) -> Result<Vec<IrGlyph>, String> {
@@ -894,7 +1065,7 @@ fn composed_overflow(src: &Src, name: &str, k: usize, acc: &[f64; 6], depth: usi
         return false;
     }
     let Some(g) = src.g(name) else { return false };
-    for (b, x) in g.bases.iter().zip(g.m[k].xf.iter()) {
+    for (b, x) in g.bases.iter().zip(src.inst(g, k).xf.iter()) {
         let t = mul(acc, x);
         let leafward = src.g(b).map(|c| !c.bases.is_empty()).unwrap_or(false);
         if depth >= 1 && t[..4].iter().any(|v| !(-2.0..=2.0).contains(v)) {
@@ -922,11 +1093,14 @@ fn run_source(src: &Src, with_model: bool) -> Vec<Value> {
     let has_nonexport = src.glyphs.iter().any(|g| !g.export);
     let dir = scratch_dir("c12");
     let nm = src.pos.len();
+    // outlines are compared at every location at which any glyph of the font has a source
+    let locs = src.locs();
+    let nl = locs.len();
     let exported: Vec<&G> = src.glyphs.iter().filter(|g| g.export).collect();
-    // reference resolution per exported glyph and master
+    // reference resolution per exported glyph and location
     let mut refs: HashMap<(String, usize), Vec<RC>> = HashMap::new();
     for g in &exported {
-        for k in 0..nm {
+        for k in 0..nl {
             let mut v = Vec::new();
             resolve_ref(src, &g.name, k, &IDENT, false, &mut v, 12);
             refs.insert((g.name.clone(), k), v);
@@ -938,6 +1112,9 @@ fn run_source(src: &Src, with_model: bool) -> Vec<Value> {
     let mut seen_keys: std::collections::HashSet<String> = Default::default();
     // per master: (mask, IR glyph order, IR glyphs, some glyph lost contours)
     let mut model_runs: Vec<Vec<(usize, String, String, bool)>> = vec![Vec::new(); 2 * nm];
+    // per export mode: (option subset, source locations of the IR glyphs that have no components)
+    let mut loc_runs: Vec<Vec<(usize, String)>> = vec![Vec::new(); 2];
+    let mut f1_seen: std::collections::HashSet<(String, String)> = Default::default();
     // drawn contour counts per (all exported, option subset, glyph, master)
     let mut drawn_counts: HashMap<(bool, usize, String, usize), usize> = HashMap::new();
     for all_export in [false, true] {
@@ -978,7 +1155,7 @@ fn run_source(src: &Src, with_model: bool) -> Vec<Value> {
                     continue;
                 }
             };
-            let mut lost = vec![false; nm];
+            let mut lost = vec![false; nl];
             for g in &exported {
                 let Some(drawn) = obs.glyphs.get(&g.name) else {
                     if seen_keys.insert(format!("missing:{}", g.name)) {
@@ -987,17 +1164,21 @@ fn run_source(src: &Src, with_model: bool) -> Vec<Value> {
                     continue;
                 };
                 let depth = src.depth(&g.name).max(1);
-                for k in 0..nm {
+                for k in 0..nl {
                     comparisons += 1;
                     let r = &refs[&(g.name.clone(), k)];
                     let d = &drawn[k];
                     drawn_counts.insert((all_export, mask, g.name.clone(), k), d.contours.len());
-                    // advance: ot_round of the source advance
-                    let want = (g.m[k].adv + 0.5).floor();
-                    if (d.advance as f64 - want).abs() > 1e-3 {
+                    let own_source = k < nm || g.sp.is_some();
+                    let k_name = if k < nm { format!("master {k} (wght={})", locs[k]) } else { format!("intermediate location wght={} ({})", locs[k], if own_source { "own source" } else { "no own source: interpolated" }) };
+                    // advance: ot_round of the source advance (interpolated between the glyph's own sources
+                    // where it has none: deltas are rounded, allow one unit there)
+                    let src_adv = src.inst(g, k).adv;
+                    let want = (src_adv + 0.5).floor();
+                    if (d.advance as f64 - want).abs() > if own_source { 1e-3 } else { 1.0 + 1e-3 } {
                         let key = "advance-differs-under-component-options";
                         if seen_keys.insert(format!("{key}:{}", g.name)) {
-                            viol(&mut out, key, format!("source {} options [{variant}] glyph '{}' master {k}: advance {} but the source says {}", src.id, g.name, d.advance, g.m[k].adv), json!({"variant": variant, "glyph": g.name, "master": k}));
+                            viol(&mut out, key, format!("source {} options [{variant}] glyph '{}' {k_name}: advance {} but the source says {}", src.id, g.name, d.advance, src_adv), json!({"variant": variant, "glyph": g.name, "master": k}));
                         }
                     }
                     let tol = depth as f64 + 1e-3;
@@ -1035,7 +1216,7 @@ fn run_source(src: &Src, with_model: bool) -> Vec<Value> {
                                 ("contour-structure-differs-under-component-options", "contours cannot be matched up to start point (point counts or on/off pattern differ)".to_string())
                             };
                             if seen_keys.insert(format!("{key}:{}", g.name)) {
-                                viol(&mut out, key, format!("source {} ({}) options [{variant}] glyph '{}' master {k}: {what}", src.id, src.kind, g.name),
+                                viol(&mut out, key, format!("source {} ({}) options [{variant}] glyph '{}' {k_name}: {what}", src.id, src.kind, g.name),
                                      json!({"variant": variant, "glyph": g.name, "master": k, "drawn": d.contours.iter().map(|c| c.iter().map(|p| json!([p.x, p.y, p.on])).collect::<Vec<_>>()).collect::<Vec<_>>()}));
                             }
                         }
@@ -1046,14 +1227,24 @@ fn run_source(src: &Src, with_model: bool) -> Vec<Value> {
                             if loose_ok {
                                 let key = "contour-orientation-differs-without-flip";
                                 if seen_keys.insert(format!("{key}:{}", g.name)) {
-                                    viol(&mut out, key, format!("source {} ({}) options [{variant}] glyph '{}' master {k}: a contour is reversed although no negative determinant is involved", src.id, src.kind, g.name),
+                                    viol(&mut out, key, format!("source {} ({}) options [{variant}] glyph '{}' {k_name}: a contour is reversed although no negative determinant is involved", src.id, src.kind, g.name),
                                          json!({"variant": variant, "glyph": g.name, "master": k}));
                                 }
                             } else if dist > tol {
                                 let (fb, _) = format_bound(src, &g.name, k, 12);
                                 let ovf = composed_overflow(src, &g.name, k, &IDENT, 0, 12);
                                 let flat_only = flags.contains(Flags::FLATTEN_COMPONENTS) && !flags.contains(Flags::DECOMPOSE_COMPONENTS);
-                                let key = if ovf && flat_only {
+                                // a saturated 2x2 shows at every location: away from the full masters the overflow
+                                // class is only assumed when the same glyph already failed that way at a full master
+                                let f1 = ovf && flat_only && (k < nm || f1_seen.contains(&(variant.clone(), g.name.clone())));
+                                if f1 {
+                                    f1_seen.insert((variant.clone(), g.name.clone()));
+                                }
+                                // the one listed case of a flattened glyph missing a nested composite's intermediate master
+                                let listed_brace = src.kind == COMPOSITE_BRACE && g.name == "top" && flat_only && k >= nm && !own_source;
+                                let key = if listed_brace {
+                                    "flatten-drops-intermediate-master-of-nested-composite"
+                                } else if f1 {
                                     "flatten-composed-transform-exceeds-f2dot14"
                                 } else if dist <= fb + 1.0 + 1e-3 {
                                     // fb bounds |stored composite - exact|; the reference is the exact point rounded (1/2) and the
@@ -1063,8 +1254,8 @@ fn run_source(src: &Src, with_model: bool) -> Vec<Value> {
                                     "outline-differs-under-component-options"
                                 };
                                 if seen_keys.insert(format!("{key}:{}", g.name)) {
-                                    viol(&mut out, key, format!("source {} ({}) options [{variant}] glyph '{}' (nesting depth {depth}) master {k}: drawn outline is {dist:.4} units away from the resolved source outline (allowed {depth}; format bound {:.3})", src.id, src.kind, g.name, fb + 1.0),
-                                         json!({"variant": variant, "glyph": g.name, "master": k, "distance": dist, "depth": depth,
+                                    viol(&mut out, key, format!("source {} ({}) options [{variant}] glyph '{}' (nesting depth {depth}) {k_name}: drawn outline is {dist:.4} units away from the resolved source outline (allowed {depth}; format bound {:.3})", src.id, src.kind, g.name, fb + 1.0),
+                                         json!({"variant": variant, "options": variant, "glyph": g.name, "master": k, "location": k_name, "location_wght": locs[k], "distance": dist, "depth": depth,
                                                 "drawn": d.contours.iter().map(|c| c.iter().map(|p| json!([p.x, p.y, p.on])).collect::<Vec<_>>()).collect::<Vec<_>>()}));
                                 }
                             }
@@ -1073,6 +1264,16 @@ fn run_source(src: &Src, with_model: bool) -> Vec<Value> {
                 }
             }
             if let Some(d) = &ir_dir {
+                if nl > nm {
+                    match read_ir_locs(d) {
+                        Ok(v) => loc_runs[all_export as usize].push((mask, coq_list(&v, |(n, l)| format!("({}, [{}])", coq_name(src, n), l.iter().map(|x| coq_z(*x)).collect::<Vec<_>>().join("; "))))),
+                        Err(e) => {
+                            if seen_keys.insert("ir".into()) {
+                                viol(&mut out, "ir-unreadable", format!("source {} options [{variant}]: {e}", src.id), json!({"variant": variant}));
+                            }
+                        }
+                    }
+                }
                 for k in 0..nm {
                     match read_ir(d, src, k) {
                         Ok(ir) => {
@@ -1088,6 +1289,25 @@ fn run_source(src: &Src, with_model: bool) -> Vec<Value> {
                 }
             }
         }
+    }
+    // location cases: every glyph left without components has a source wherever the walk over the source's
+    // component graph (FV.C12.Locs) says a transitively referenced glyph has one
+    for (ae, runs) in loc_runs.iter().enumerate() {
+        if runs.is_empty() {
+            continue;
+        }
+        let mut groups: Vec<(Vec<usize>, &String)> = Vec::new();
+        for (mask, l) in runs {
+            match groups.iter_mut().find(|x| x.1 == l) {
+                Some(x) => x.0.push(*mask),
+                None => groups.push((vec![*mask], l)),
+            }
+        }
+        let checks: Vec<String> = groups.iter().map(|(_, l)| format!("locs_cover_all 200 F {}", l)).collect();
+        let coq = format!("let F := {} in ({})", coq_lfont(src), checks.join(") && ("));
+        out.push(json!({"type":"case","kind":format!("{}:locations", src.kind),"coq":coq,"nontrivial": true,
+                        "sig": format!("s{}loc{}", src.id, if ae == 1 { "x" } else { "" }), "source_id": src.id, "all_exported": ae == 1,
+                        "option_subsets": runs.len(), "distinct_ir_outcomes": groups.len()}));
     }
     // model cases: one per master location, all option subsets that built
     for kk in 0..2 * nm {
@@ -1143,7 +1363,7 @@ fn hash_order_probe() -> Vec<Value> {
         g
     };
     let base = fixed_sources().into_iter().find(|s| s.kind == "fixed:same-key-twice").unwrap();
-    let src = Src { id: 100000, kind: "probe:same-key-twice-2m".into(), pos: vec![0.0, 500.0, 1000.0], axis_default: 0.0, glyphs: base.glyphs.iter().map(two).collect(), order: base.order.clone() };
+    let src = Src { id: 100000, kind: "probe:same-key-twice-2m".into(), pos: vec![0.0, 500.0, 1000.0], axis_default: 0.0, sparse: None, glyphs: base.glyphs.iter().map(two).collect(), order: base.order.clone() };
     let dir = scratch_dir("c12p");
     let path = src.design(false).write(dir.path());
     let mut f = Flags::default();
